@@ -98,7 +98,11 @@ func newC07Stack(scratch, name string) *c07Stack {
 		// the repository's own outbox test gives the outbox its own database
 		db2 := verifx.Must(sqlite.OpenDatabase(filepath.Join(dir, "outbox", "outbox.db")))
 		repo := verifx.Must(repositoryfactory.NewStorageOutboxEntryRepository(db2))
-		obx := verifx.Must(outbox.NewStorage(db2, "default", inner.Storage, repo, prometheus.NewRegistry(), 30*time.Second))
+		// the outbox worker replays queued (= unconditional) writes through this double, which makes
+		// every replay take a little longer than a call needs to reach the inner storage: a
+		// conditional write that failed to drain the key's queue first then reliably overtakes the
+		// queued write. (It only widens that window; verdicts depend on recorded orders alone.)
+		obx := verifx.Must(outbox.NewStorage(db2, "default", &c07SlowReplay{Storage: inner.Storage}, repo, prometheus.NewRegistry(), 30*time.Second))
 		verifx.Check(obx.Start(context.Background()))
 		cs.st = obx
 		cs.stop = func() {
@@ -109,6 +113,22 @@ func newC07Stack(scratch, name string) *c07Stack {
 		}
 	}
 	return cs
+}
+
+type c07SlowReplay struct{ storage.Storage }
+
+func (w *c07SlowReplay) PutObject(ctx context.Context, b storage.BucketName, k storage.ObjectKey, ct *string, r io.Reader, ci *storage.ChecksumInput, o *storage.PutObjectOptions) (*storage.PutObjectResult, error) {
+	if o == nil || (!o.IfNoneMatchStar && o.IfMatchETag == nil) {
+		time.Sleep(25 * time.Millisecond)
+	}
+	return w.Storage.PutObject(ctx, b, k, ct, r, ci, o)
+}
+
+func (w *c07SlowReplay) DeleteObject(ctx context.Context, b storage.BucketName, k storage.ObjectKey, o *storage.DeleteObjectOptions) (*storage.DeleteObjectResult, error) {
+	if o == nil || o.IfMatchETag == nil {
+		time.Sleep(25 * time.Millisecond)
+	}
+	return w.Storage.DeleteObject(ctx, b, k, o)
 }
 
 func (cs *c07Stack) Close() {
@@ -527,6 +547,26 @@ func c07Directed() []*c07Plan {
 			}
 			plans = append(plans, p)
 		}
+		// (7) behind the outbox: an acknowledged queued write, then a conditional write by the same
+		// goroutine (the conditional one must see the acknowledged one)
+		if strings.HasPrefix(stack, "obx-") {
+			g := &c07Gen{r: verifx.NewRng(77)}
+			p := &c07Plan{stack: stack, ver: "off", kind: "mixed"}
+			for gi := 0; gi < 2; gi++ {
+				u := g.op(gi, "put")
+				u.body = g.body()
+				c := g.op(gi, "put")
+				c.body = g.body()
+				if gi == 0 {
+					c.inm = true
+				} else {
+					c.im = "bogus"
+				}
+				h := g.op(gi, "head")
+				p.progs = append(p.progs, []*c07Op{u, c, h})
+			}
+			plans = append(plans, p)
+		}
 		// (5) write offsets one byte off the current size must be refused (C12)
 		{
 			g := &c07Gen{r: verifx.NewRng(75)}
@@ -801,12 +841,29 @@ func runC07(args []string) {
 		}
 	}()
 	directed := c07Directed()
-	total := len(directed) + f.Cases
+	combos := c07ILCombos()
+	nIL := len(combos) * c07ILMaxBoundary
+	var il *c07ILEnv
+	defer func() {
+		if il != nil {
+			il.Close()
+		}
+	}()
+	total := len(directed) + nIL + f.Cases
 	for k := 0; k < total; k++ {
 		if !f.Wants(k) {
 			continue
 		}
 		seed := verifx.CaseSeed(f.Seed, k)
+		if k >= len(directed) && k < len(directed)+nIL {
+			// statement-level interleavings on the sql metadata store (c07_interleave.go)
+			if il == nil {
+				il = newC07ILEnv(f.Scratch)
+			}
+			i := k - len(directed)
+			il.run(out, k, seed, combos[i/c07ILMaxBoundary], i%c07ILMaxBoundary)
+			continue
+		}
 		var p *c07Plan
 		if k < len(directed) {
 			p = directed[k]
